@@ -184,9 +184,9 @@ def run_case(case, ctx):
 
 
 def shard_main(ctx):
-    if not ctx.explore("crop4x4", cases(ctx, ("4x4",)), run_case, ctx.n(60, 1200)):
+    if not ctx.explore("crop4x4", cases(ctx, ("4x4",)), run_case, ctx.n(150, 1500)):
         return
-    ctx.explore("cropother", cases(ctx, ("zs", "gen")), run_case, ctx.n(30, 500))
+    ctx.explore("cropother", cases(ctx, ("zs", "gen")), run_case, ctx.n(80, 800))
 
 
 def replay(case, ctx):
